@@ -39,10 +39,11 @@ TRUSTED_BASE = [
     "tools/translate/gen_c05.py (operator arities from the do_* signatures, PREDEFINED_COLORSPACE, arithmetic of "
     "do_Td/do_T_a/render_string/LTChar.__init__) - every translated definition is used by the model and so exercised "
     "by the correspondence",
-    "the harness's PDF writer / serialiser of content streams and its token-level view of PDFContentParser (the lexer "
-    "itself belongs to C01/C14)",
+    "the harness's PDF writer / serialiser of content streams; the byte-level front end (C14's lexer model + the "
+    "assembler of Model/ContentLex.lean) is run on the very bytes pdfminer reads and compared with it every run",
     "exact rationals stand for Python floats; comparison within 2^-30 relative tolerance",
-    "font width lookup (Widths/FirstChar/MissingWidth, /1000) is shared by model and spec (C06 owns it)",
+    "font tables (Widths/FirstChar/MissingWidth, W/W2/DW2, FontMatrix, Descent) are inputs shared by model and spec "
+    "(C06/C07 own their extraction from the font dictionaries)",
 ]
 ASSUMPTIONS = [
     "operands are dyadic rationals of moderate size so that float arithmetic is exact up to the 0.001/0.01 constants",
@@ -52,22 +53,32 @@ ASSUMPTIONS = [
     "graphicstate.ncolor None is read as 'initial colour'",
 ]
 STATEMENT_STATUS: Dict[str, str] = {
-    "C05_program": "proved: for every env (fonts, forms), CTM, resources, split into streams: TextModel.runPage = some gl "
-                   "-> Interp.runPage reports exactly gl (induction over programs, any q/Q and form nesting <= fuel)",
+    "C05_program": "proved: for every env (fonts incl. Type 3 / CID / vertical, forms), CTM, resources, split into streams: "
+                   "TextModel.runPage = some gl -> Interp.runPage reports exactly gl (induction over programs, any q/Q and "
+                   "form nesting <= fuel; forms inherit the caller's graphics state)",
+    "C05_program_bytes": "proved: the same starting from the bytes of the streams (lexer model of C14 + assembler)",
     "C05_program_any_budget": "proved: the same at every larger nesting budget",
+    "C05_budget_suffices": "proved: with an acyclic (ranked) form table a budget of forms.length is never exhausted, for "
+                           "any program",
+    "C05_fuel_stable": "proved: raising the nesting budget never changes a result",
     "C05_step": "proved: one instruction preserves the simulation relation R and yields the same glyphs",
     "C05_forms": "proved: Interp.runForm = TextModel.runForm at every budget from related initial states: a form "
                  "inherits the caller's graphics state (no prologue restriction any more)",
     "C05_split": "proved: streams one after the other = their concatenation (state, operand stack, glyphs)",
     "C05_split_page": "proved",
+    "C05_lex_streams": "proved: PDFContentParser over a Contents array = lexer over the concatenated bytes",
+    "C05_split_bytes": "proved: any division of the bytes into streams gives the same token-level program",
+    "C05_split_at_token_boundary": "proved: at a token boundary, lexing the streams independently (ISO 7.8.2) = "
+                                   "pdfminer's single scanner",
     "C05_form_frame": "proved: interpreter state of the caller after Do = before, device CTM = caller's CTM",
     "C05_form_frame_spec": "proved",
     "C05_illtyped": "proved: an instruction with missing/ill-typed operands (no booleans, no excess) leaves the "
                     "interpreter state unchanged and shows nothing",
     "C05_illtyped_spec": "proved (by definition of the spec)",
-    "C05_fuel_stable": "proved: raising the nesting budget never changes a result",
-    "C05_string_displacement": "proved: render_string_horizontal = 9.4.4 displacement for every string",
-    "C05_glyph": "proved: LTChar.__init__ = glyph of the text model",
+    "C05_string_displacement": "proved: render_string_horizontal = 9.4.4 displacement for every string and font",
+    "C05_string_displacement_vertical": "proved: render_string_vertical = 9.4.4 (ty not scaled by Th)",
+    "C05_font_scale": "proved: pdfminer's hscale/vscale (constants, Type 3 FontMatrix) are the scales of 9.6.5",
+    "C05_glyph": "proved: LTChar.__init__ = glyph of the text model, horizontal and vertical writing",
 }
 
 TOL = F(1, 2 ** 30)
